@@ -31,27 +31,48 @@ ALLOC_2 = ["REMOVEBUF", "ADDBUFREF", "ADDBUF", "PREPENDBUF"]
 _nf = os.path.join(_d, "C14_nofail.json")
 NOFAIL = set(json.load(open(_nf))) if os.path.exists(_nf) else set()
 
+FAILN = {"ADD_IOVEC": 3, "ADDBUFREF": 3}     # fault positions per step (default 2); the harness asserts the step makes no further allocation
+PRE_Q = [[], [(A, "ADD", 3)], [(A, "ADD", 16)], [(A, "PREPEND", 3)], [(A, "REF", 3)], [(A, "ADD", 15), (A, "DRAIN", 4)]]
+PA_Q = [[], [(A, "ADD", 3)], [(A, "EXPAND", 8)]]
+PB_Q = [[(B, "ADD", 3)], [(B, "ADD", 17)], [(B, "ADD", 16), (B, "ADD", 3)]]
+
 def gen(tier, calibrate=False):
     obs = []
-    pres = C12.PREFIX_1 + (C12.PREFIX_2 + C12.PREFIX_3 if tier == "thorough" else [[(A, "ADD", 15), (A, "DRAIN", 4)], [(A, "ADD", 16), (A, "ADD", 3)]])
     def mk(pre, fin, **kw):
-        ob = C12.evb_split(14, pre, fin, **kw)
-        ob2 = C12.evb_split(14, pre, fin, wit_failpath=(calibrate or ob["name"] not in NOFAIL), **kw)
-        return ob2
-    for pre in pres:
-        for fk in ALLOC_1:
-            obs.append(mk(pre, (A, fk), **C12.timeouts(fk, tier)))
-    pa, pb = (C12.PA_T, C12.PB_T) if tier == "thorough" else (C12.PA_Q, C12.PB_Q)
-    for x in pa:
-        for y in pb:
-            for fk in ALLOC_2:
-                obs.append(mk(x + y, (A, fk), **C12.timeouts(fk, tier)))
+        xd = list(kw.pop("extra_defs", [])) + ["VP_FAILN=%d" % FAILN.get(fin[1], 2)]
+        name = C12.evb_split(14, pre, fin, **dict(kw))["name"]
+        kw.setdefault("desc_extra", "")
+        kw["desc_extra"] += "; the 1st..%dth allocation of the step fails (solver-chosen, 0 = none)" % FAILN.get(fin[1], 2)
+        if fin[1] in ("PULLUP", "EXPAND"): kw.setdefault("solver", "kissat")
+        return C12.evb_split(14, pre, fin, extra_defs=xd, wit_failpath=(calibrate or name not in NOFAIL), **kw)
+    def tmo(fk): return dict(timeout=900 if tier == "quick" else 1500, mem_gb=5)
+    if tier == "quick":
+        for pre in PRE_Q:
+            for fk in ALLOC_1:
+                if fk == "ADD_IOVEC" and pre != []: continue
+                obs.append(mk(pre, (A, fk), **tmo(fk)))
+        for x in PA_Q:
+            for y in PB_Q:
+                for fk in ["REMOVEBUF", "ADDBUFREF"]:
+                    obs.append(mk(x + y, (A, fk), **tmo(fk)))
+        obs.append(mk([(A, "ADD", 3), (B, "ADD", 17)], (A, "ADDBUF"), **tmo("ADDBUF")))
+        obs.append(mk([(A, "ADD", 3), (B, "ADD", 17)], (A, "PREPENDBUF"), **tmo("ADDBUF")))
+    else:
+        for pre in C12.PREFIX_1 + C12.PREFIX_2[:9] + C12.PREFIX_3[:1]:
+            for fk in ALLOC_1:
+                if fk == "ADD_IOVEC" and pre not in ([], [(A, "ADD", 15)], [(A, "REF", 3)]): continue
+                obs.append(mk(pre, (A, fk), **tmo(fk)))
+        for x in C12.PA_T[:5]:
+            for y in C12.PB_T[:5]:
+                for fk in ALLOC_2:
+                    if fk in ("ADDBUF", "PREPENDBUF") and (x, y) not in [(C12.PA_T[1], C12.PB_T[1])]: continue
+                    obs.append(mk(x + y, (A, fk), **tmo(fk)))
     # callbacks attached: a failed operation must not be reported to callbacks either
     for pre in [[(A, "PREPEND", 3)], [(A, "ADD", 16)]]:
         for fk in ["ADD", "PREPEND", "REF"]:
-            obs.append(mk(pre, (A, fk), cb=1, name_prefix="cb1_", **C12.timeouts(fk, tier)))
+            obs.append(mk(pre, (A, fk), cb=1, name_prefix="cb1_", **tmo(fk)))
     for fk in ["REMOVEBUF", "ADDBUFREF"]:
-        obs.append(mk([(A, "ADD", 3), (B, "ADD", 17)], (A, fk), cb=1, name_prefix="cb1_", **C12.timeouts(fk, tier)))
+        obs.append(mk([(A, "ADD", 3), (B, "ADD", 17)], (A, fk), cb=1, name_prefix="cb1_", **tmo(fk)))
     return obs
 
 def obligations(tier):
